@@ -433,6 +433,9 @@ fn lzw_encode(data: &[u8], params: &LZWFlateParams) -> Result<Vec<u8>> {
     if params.early_change != 0 {
         bail!("encoding early_change != 0 is not supported");
     }
+    if params.predictor > 1 {
+        bail!("encoding with a predictor is not supported");
+    }
     let mut compressed = vec![];
     Encoder::new(BitOrder::Msb, 8)
         .into_stream(&mut compressed)
@@ -554,7 +557,13 @@ pub fn encode(data: &[u8], filter: &StreamFilter) -> Result<Vec<u8>> {
         StreamFilter::ASCIIHexDecode => Ok(encode_hex(data)),
         StreamFilter::ASCII85Decode => Ok(encode_85(data)),
         StreamFilter::LZWDecode(ref params) => lzw_encode(data, params),
-        StreamFilter::FlateDecode (ref _params) => Ok(flate_encode(data)),
+        StreamFilter::FlateDecode (ref params) => {
+            // the decoder would undo a predictor that was never applied
+            if params.predictor > 1 {
+                bail!("encoding with a predictor is not supported");
+            }
+            Ok(flate_encode(data))
+        }
         _ => unimplemented!(),
     }
 }
